@@ -31,42 +31,45 @@ class JsonResource(Resource):
     def load(self, options=None):
         self.options = options or {}
         self.cache_enabled = True
-        json_value = self.uri.create_instream()
+        try:
+            json_value = self.uri.create_instream()
 
-        decoder = self.options.get(JsonOptions.DECODER)
-        d = json.loads(json_value.read().decode('utf-8'), cls=decoder)
+            decoder = self.options.get(JsonOptions.DECODER)
+            d = json.loads(json_value.read().decode('utf-8'), cls=decoder)
 
-        if isinstance(d, list):
-            for x in d:
-                self.to_obj(x, first=True)
-        else:
-            self.to_obj(d, first=True)
-        self.uri.close_stream()
-        bidirectional = []
-        for inst, refs in list(self._load_href.items()):
-            self.process_inst(inst, refs, document_order=bidirectional)
-        # the other end may have filled a collection before its own turn came:
-        # put the elements back in the order the document gives them
-        for inst, feature, document_order in bidirectional:
-            collection = inst.eGet(feature)
-            if len(document_order) != len(collection) \
-                    or all(x is y for x, y in zip(collection, document_order)) \
-                    or {id(x) for x in collection} \
-                    != {id(x) for x in document_order}:
-                continue
-            if hasattr(collection, 'map'):
-                collection.items[:] = document_order
-                collection.map.clear()
-                collection.map.update((x, i)
-                                      for i, x in enumerate(document_order))
+            if isinstance(d, list):
+                for x in d:
+                    self.to_obj(x, first=True)
             else:
-                list.__setitem__(collection, slice(None), document_order)
-        self._load_href.clear()
-        self._find_feature.cache_clear()
-        # fragments resolved while loading must not outlive the load: the
-        # objects they name change position as soon as the model is edited
-        self._resolve_mem.clear()
-        self.cache_enabled = False
+                self.to_obj(d, first=True)
+            self.uri.close_stream()
+            bidirectional = []
+            for inst, refs in list(self._load_href.items()):
+                self.process_inst(inst, refs, document_order=bidirectional)
+            # the other end may have filled a collection before its own turn came:
+            # put the elements back in the order the document gives them
+            for inst, feature, document_order in bidirectional:
+                collection = inst.eGet(feature)
+                if len(document_order) != len(collection) \
+                        or all(x is y for x, y in zip(collection, document_order)) \
+                        or {id(x) for x in collection} \
+                        != {id(x) for x in document_order}:
+                    continue
+                if hasattr(collection, 'map'):
+                    collection.items[:] = document_order
+                    collection.map.clear()
+                    collection.map.update((x, i)
+                                          for i, x in enumerate(document_order))
+                else:
+                    list.__setitem__(collection, slice(None), document_order)
+        finally:
+            # (also when the document is refused half-way)
+            self._load_href.clear()
+            self._find_feature.cache_clear()
+            # fragments resolved while loading must not outlive the load: the
+            # objects they name change position as soon as the model is edited
+            self._resolve_mem.clear()
+            self.cache_enabled = False
 
     def save(self, output=None, options=None):
         self.options = options or {}
